@@ -238,6 +238,150 @@ Definition sp_escape (u : bool) (np : N) (l : list N) : SR bool :=
       else SOk false l
   | [] => SOk false l
   end.
+(* ---- the pieces of consume_atom_escape that consume_class_escape shares ---- *)
+(* CharacterClassEscape *)
+Definition sp_cce (l : list N) : SR bool :=
+  match l with c :: r => if character_class_escape c then SOk true r else SOk false l | [] => SOk false l end.
+(* CharacterEscape (without the DecimalEscape of AtomEscape) *)
+Definition sp_ce (u : bool) (l : list N) : SR bool :=
+  match l with
+  | [] => SOk false l
+  | c :: r =>
+      if control_escape c then SOk true r
+      else if (c =? 99) && starts_letter r then SOk true (tl r)
+      else if (c =? 48) && negb (starts_digit r) then SOk true r
+      else
+        match sp_hex_esc u l with
+        | SOk true r' => SOk true r'
+        | SOk false _ =>
+            match sp_unicode_esc u l with
+            | SOk true r' => SOk true r'
+            | SOk false _ =>
+                let '(b, r') := if u then (false, l) else sp_legacy_octal l in
+                if b then SOk true r' else if identity_escape u c then SOk true r else SOk false l
+            | SErr => SErr
+            | SFuel => SFuel
+            end
+        | SErr => SErr
+        | SFuel => SFuel
+        end
+  end.
+(* the CharacterValue of the CharacterEscape that sp_ce finds at l *)
+Definition hex_run_value (n : nat) (l : list N) : N := match hex_run n l 0 with Some (v, _) => v | None => 0 end.
+Definition unicode_value (u : bool) (r : list N) : N :=      (* r: after the `u` *)
+  if u && fst (sp_surrogate_pair r) then
+    (hex_run_value 4 r - 55296) * 1024 + (hex_run_value 4 (skipn 6 r) - 56320) + 65536
+  else match hex_run 4 r 0 with
+       | Some (v, _) => v
+       | None => hex_value (fst (span_hex (tl r)))          (* `{` CodePoint `}` *)
+       end.
+Definition legacy_octal_value (l : list N) : N :=
+  match l with
+  | a :: r1 =>
+      match r1 with
+      | b :: r2 =>
+          if octal_digit b then
+            if zero_to_three a then
+              match r2 with
+              | c :: _ => if octal_digit c then 64 * (a - 48) + 8 * (b - 48) + (c - 48) else 8 * (a - 48) + (b - 48)
+              | [] => 8 * (a - 48) + (b - 48)
+              end
+            else 8 * (a - 48) + (b - 48)
+          else a - 48
+      | [] => a - 48
+      end
+  | [] => 0
+  end.
+Definition is_true (x : SR bool) : bool := match x with SOk true _ => true | _ => false end.
+Definition ce_value (u : bool) (l : list N) : N :=
+  match l with
+  | [] => 0
+  | c :: r =>
+      if control_escape c then control_escape_value c
+      else if (c =? 99) && starts_letter r then (hd 0 r) mod 32
+      else if (c =? 48) && negb (starts_digit r) then 0
+      else if is_true (sp_hex_esc u l) then hex_run_value 2 r
+      else if is_true (sp_unicode_esc u l) then unicode_value u r
+      else if negb u && octal_digit c then legacy_octal_value l
+      else c
+  end.
+
+(* ---- character classes ----
+   class atoms answer  Some (Some v): an atom with CharacterValue v | Some None: an atom that is a class | None: no atom here *)
+Definition sp_class_escape (u : bool) (l : list N) : SR (option (option N)) :=     (* l: after the backslash *)
+  match l with
+  | c :: r =>
+      if c =? 98 then SOk (Some (Some 8)) r
+      else if u && (c =? 45) then SOk (Some (Some 45)) r
+      else if negb u && (c =? 99) && (match r with d :: _ => class_control_letter d | [] => false end)
+      then SOk (Some (Some (hd 0 r mod 32))) (tl r)
+      else
+        match sp_cce l with
+        | SOk true r' => SOk (Some None) r'
+        | SOk false _ =>
+            match sp_ce u l with
+            | SOk true r' => SOk (Some (Some (ce_value u l))) r'
+            | SOk false _ => SOk None l
+            | SErr => SErr
+            | SFuel => SFuel
+            end
+        | SErr => SErr
+        | SFuel => SFuel
+        end
+  | [] => SOk None l
+  end.
+Definition sp_class_atom (u : bool) (l : list N) : SR (option (option N)) :=
+  match l with
+  | [] => SOk None l
+  | c :: r =>
+      if negb (c =? g_backslash) && negb (c =? g_rbracket) then SOk (Some (Some c)) r
+      else if c =? g_backslash then
+        match sp_class_escape u r with
+        | SOk (Some ov) r' => SOk (Some ov) r'
+        | SOk None _ =>
+            (* Annex B: the backslash before `c` is a literal *)
+            if negb u && starts_with 99 r then SOk (Some (Some g_backslash)) r
+            else if u then SErr else SOk None l
+        | SErr => SErr
+        | SFuel => SFuel
+        end
+      else SOk None l
+  end.
+(* the early errors of a range *)
+Definition range_ok_b (u : bool) (a b : option N) : bool :=
+  match a, b with Some x, Some y => x <=? y | _, _ => negb u end.
+Fixpoint sp_class_ranges (u : bool) (g : nat) (l : list N) : SR unit :=
+  match g with O => SFuel | S g =>
+    match sp_class_atom u l with
+    | SOk None _ => SOk tt l
+    | SOk (Some va) l1 =>
+        if starts_with 45 l1 then
+          match sp_class_atom u (tl l1) with
+          | SOk None _ => SOk tt (tl l1)
+          | SOk (Some vb) l3 => if range_ok_b u va vb then sp_class_ranges u g l3 else SErr
+          | SErr => SErr
+          | SFuel => SFuel
+          end
+        else sp_class_ranges u g l1
+    | SErr => SErr
+    | SFuel => SFuel
+    end
+  end.
+(* CharacterClass *)
+Definition sp_class (u : bool) (l : list N) : SR bool :=
+  match l with
+  | c :: r =>
+      if c =? g_lbracket then
+        let r1 := if starts_with g_caret r then tl r else r in
+        match sp_class_ranges u (S (length r1)) r1 with
+        | SOk _ r2 => if starts_with g_rbracket r2 then SOk true (tl r2) else SErr
+        | SErr => SErr
+        | SFuel => SFuel
+        end
+      else SOk false l
+  | [] => SOk false l
+  end.
+
 (* Annex B: a backslash before `c` *)
 Definition bs_c (l : list N) : bool := match l with b :: c :: _ => (b =? g_backslash) && (c =? 99) | _ => false end.
 
@@ -297,6 +441,7 @@ Definition sp_atom (l : list N) : SR bool :=
         | SErr => SErr
         | SFuel => SFuel
         end
+      else if c =? g_lbracket then sp_class u l
       else if c =? g_lparen then
         match r with
         | q :: r' =>
@@ -386,20 +531,23 @@ End Knot.
 Fixpoint sp_disjunction (u : bool) (np : N) (f : nat) (l : list N) : SR unit :=
   match f with O => SFuel | S f => sp_disjunction_body u np (sp_disjunction u np f) l end.
 
-(* NcapturingParens, counted on the units: an unescaped `(` that is not followed by `?` (the fragment has no named groups) *)
-Fixpoint count_groups (l : list N) (escaped : bool) : N :=
+(* NcapturingParens, counted on the units as count_capturing_parens does: an unescaped `(` outside a class that is not
+   followed by `?` (the fragment has no named groups); a class runs from an unescaped `[` to the next unescaped `]` *)
+Fixpoint count_groups (l : list N) (in_class escaped : bool) : N :=
   match l with
   | [] => 0
   | c :: r =>
-      if escaped then count_groups r false
-      else if c =? g_backslash then count_groups r true
-      else if (c =? g_lparen) && negb (starts_with g_question r) then 1 + count_groups r false
-      else count_groups r false
+      if escaped then count_groups r in_class false
+      else if c =? g_backslash then count_groups r in_class true
+      else if c =? g_lbracket then count_groups r true false
+      else if c =? g_rbracket then count_groups r false false
+      else if (c =? g_lparen) && negb in_class && negb (starts_with g_question r) then 1 + count_groups r in_class false
+      else count_groups r in_class false
   end.
 
 (* Pattern: a Disjunction that spans the whole input *)
 Definition sp_pattern (u : bool) (l : list N) : SR unit :=
-  match sp_disjunction u (count_groups l false) (S (length l)) l with
+  match sp_disjunction u (count_groups l false false) (S (length l)) l with
   | SOk _ [] => SOk tt []
   | SOk _ (_ :: _) => SErr
   | SErr => SErr
@@ -412,7 +560,8 @@ Definition recognises (u : bool) (l : list N) : bool := match sp_pattern u l wit
      a backslash is followed by a unit x, which is skipped, where
          with u: x is not one of k p P (named references and property escapes are outside the fragment),
          if x is one of the digits 1-9, the value of the decimal digits that start at x is below 2^63;
-     every other unit is any unit but an opening bracket `[` (classes are outside the fragment);
+     every other unit is any unit but an opening bracket `[` (the simulation of the validator model does not cover
+         classes yet; the grammar and the recogniser do);
      `(?<` is followed by `=` or `!` (a look-behind, not a named group);
      where `{` starts a syntactically complete `{n}` `{n,}` `{n,m}`, the bounds are below 2^63 (the implementation
          accumulates decimal numbers in saturating 64-bit arithmetic, the grammar compares the unbounded values). *)
@@ -446,3 +595,30 @@ Fixpoint scan (u esc : bool) (l : list N) : bool :=
       else plain_char c && local_ok c r && scan u false r
   end.
 Definition in_fragment (u : bool) (l : list N) : bool := scan u false l.
+
+(* ---- the inputs on which the grammar of Grammar.v is the whole ES2022 grammar ----
+   (where the recogniser is compared with V8; in_fragment above is the smaller set on which the validator model is
+   proved to agree with it).  The same scan, with classes: a class runs from an unescaped `[` to the next unescaped `]`;
+   inside a class a backslash may be followed by any unit except, with u, p or P; `(?<`, `{` and the decimal escapes
+   are only looked at outside classes (and there the bounds need not be small). *)
+Definition escape_in_grammar (u cls : bool) (x : N) : bool :=
+  if u then negb (existsb (N.eqb x) [112; 80]) && (cls || negb (x =? 107)) else true.
+Definition group_in_grammar (c : N) (r : list N) : bool :=
+  match r with
+  | c1 :: c2 :: r' =>
+      if (c =? g_lparen) && (c1 =? g_question) && (c2 =? g_less) then
+        match r' with x :: _ => is_eq_or_bang x | [] => false end
+      else true
+  | _ => true
+  end.
+Fixpoint gscan (u cls esc : bool) (l : list N) : bool :=
+  match l with
+  | [] => negb esc
+  | c :: r =>
+      if esc then escape_in_grammar u cls c && gscan u cls false r
+      else if c =? g_backslash then gscan u cls true r
+      else if cls then gscan u (negb (c =? g_rbracket)) false r
+      else if c =? g_lbracket then gscan u true false r
+      else group_in_grammar c r && gscan u false false r
+  end.
+Definition in_grammar (u : bool) (l : list N) : bool := gscan u false false l.
